@@ -161,6 +161,19 @@ def check_C16(c):
         for xtop in c.rng.sample([None, 'a', 'b', 'z', ''], 2):
             mk = dict(model='custom', mdl=c.rng.choice(CUSTOM)) if c.rng.random() < 0.15 else dict(model=c.rng.choice(['default', 'amr', 'miniamr']))
             jobs.append(('tr_errors', dict(tr=tr, xtop=xtop, **mk)))
+    # (2a) custom tables with their own vocabulary: the roles they define, the keys and the values of their normalisation entries
+    # (a key or a value need not be a defined role), each plain and inverted - whether a role is valid is a matter of the role
+    # table alone
+    from .checks_model import CHAINS
+    tables = CUSTOM + CHAINS + [
+        {'lits': [':ARG0', ':mod'], 'pats': [], 'noop': False, 'norm': [[':agent', ':ARG0'], [':mod', ':modx'], [':ARG0-of', ':by']], 'reifs': []}]
+    for mdl in tables:
+        own = sorted(set(mdl['lits']) | {k for k, _ in mdl['norm']} | {v for _, v in mdl['norm']} | {p[0] + '1' for p in mdl['pats']})
+        own = own + [r + '-of' for r in own] + [':instance', ':free']
+        for _ in range(_q(c, 60, 1500)):
+            n = c.rng.randint(1, 4)
+            tr = [[c.rng.choice(vs), c.rng.choice(own), c.rng.choice(vs + ['x', None])] for _ in range(n)]
+            jobs.append(('tr_errors', dict(tr=tr, xtop=c.rng.choice([None, 'a']), model='custom', mdl=mdl)))
     # (2b) graphs with more nodes than the call is given stack frames: a chain and a comb of 400 nodes, connected and with a loose end
     for n, shape in ((400, 'chain'), (400, 'comb'), (300, 'chain-broken')):
         big = []
@@ -182,7 +195,8 @@ def check_C16(c):
               'from {compliant, non-compliant} in every order, as enumerated by TLC (MC_CliRun; %d replayed), texts drawn from a pool '
               'per model {AMR, model file}; Model.errors on every triple list of length <= 1 and pairs over a small alphabet with defined, '
               'undefined, singly and doubly inverted roles x explicit tops {none, a, b, phantom, empty} x models, random lists up to 6 '
-              'triples, and graphs decoded from random texts; non-trivial = non-empty' % n_cli)
+              'triples, lists over the own vocabulary of 8 custom tables (defined roles, keys and values of normalisation entries, plain and inverted), '
+              'and graphs decoded from random texts; non-trivial = non-empty' % n_cli)
     c.assumptions += ['one error-N metadata entry per offending triple is required (O8), carrying one of its messages']
 
 
